@@ -48,5 +48,11 @@ def run(W, chk):
     chk.expect(not lossy, "PROV-no-lossy-accumulator", "Router", "no swap output is stored by overwriting map insert",
                "a per-hop amount %s is stored with `insert` (overwrites the earlier hop's amount under the same key) instead of being accumulated" % (lossy[0][1] if lossy else ""),
                where(lossy[0][0]) if lossy else A.entry)
+    from rules.common import loop_accumulators
+    loop_accumulators(W, chk, ["pool_manager", "mantra_dex_std"])   # fee sums over the extra fees
+    from rules.common import loop_chains, all_elements_processed
+    from rules.common import visited_fns
+    loop_chains(W, chk, ["pool_manager"], only=visited_fns(A))
+    all_elements_processed(chk, W, A, r"\.operations\[\*\]", "Router", "PROV-router-chain")
     sc.fee_internals(W, chk)
     sc.swap_result_wiring(W, chk)
